@@ -222,13 +222,25 @@ func HarnessCLIFlagWiring() {
 		schemaRootTypes = []string{"https://example.com/widget#=Mapped"}
 	}
 	args := []string{zzIn + "/widget.json"}
+	twoIDs := zzvrt.Bool()
+	if twoIDs {
+		// two schema ids, the per-schema flags given for ONE of them only (the one that sorts
+		// first): they must not reach the other
+		args = []string{zzIn + "/gadget.json"}
+		schemaRootTypes = []string{"https://example.com/gadget=TheGadget"}
+		schemaPackages = []string{"https://example.com/widget#=gen"}
+	}
 	want := generator.Config{
 		Warner: func(string) {}, ExtraImports: extraImports, Capitalizations: capitalizations,
 		DefaultOutputName: "-", DefaultPackageName: "gen", SchemaMappings: []generator.SchemaMapping{},
 		YAMLExtensions: []string{".yml", ".yaml"}, StructNameFromTitle: structNameFromTitle,
 		Tags: tags, OnlyModels: onlyModels, MinSizedInts: minSizedInts,
 	}
-	if schemaRootTypes != nil {
+	if twoIDs {
+		want.SchemaMappings = []generator.SchemaMapping{
+			{SchemaID: "https://example.com/gadget", PackageName: "gen", RootType: "TheGadget"},
+			{SchemaID: "https://example.com/widget#", PackageName: "gen"}}
+	} else if schemaRootTypes != nil {
 		want.SchemaMappings = append(want.SchemaMappings, generator.SchemaMapping{SchemaID: "https://example.com/widget#", PackageName: "gen", RootType: "Mapped"})
 	}
 	code := zzvrt.CatchExit(func() { rootCmd.Run(rootCmd, args) })
